@@ -1,4 +1,5 @@
 import NeumannModel.Gossip.ClusterLemmas
+import NeumannModel.Gossip.Props
 /-
   C17 — the sending side of `GossipMembershipManager` and the cluster of managers.
   ONLY property theorems and their non-vacuity examples; helpers are in `ClusterLemmas.lean`.
@@ -229,5 +230,77 @@ example :
     (((Cluster.init 100).run [(0, .msg (.alive 1 7))]).nodes 0).st.regs 1 = none ∧
     (((Cluster.init 100).run [(0, .msg (.addPeer 1)), (0, .msg (.alive 1 7))]).nodes 0).st.regs 1
       = some ⟨.unknown, 2, 0⟩ := by decide
+
+/-! ## 14. the manager is a CRDT replica: the replica theorems apply to it -/
+
+/-- Every event of the manager acts on its `LWWMembershipState` through a short sequence of the
+    public operations (`Mgr.evOps`: `sync_time, merge, merge` for a Sync — the filtered states, then
+    the sender stamp —, `tick, merge` for add_peer, `suspect`, `refute`, `mark_healthy`, one `fail`
+    per expired suspicion), never `update_local`: an admissible replica history. -/
+theorem mgr_event_is_crdt_history (g : Mgr) (e : MEv) :
+    (g.stepEv e).st = run g.st (g.evOps e) ∧ Admissible g.st (g.evOps e) :=
+  ⟨stepEv_eq_run g e, admissible_of_noUpdateLocal (evOps_noUL g e)⟩
+
+/-- the CRDT state of a manager after any events is the replica history `Mgr.history` (the
+    constructor's `update_local(local, Healthy, 0)` on the empty state, then the operations of each
+    event) — so every theorem about `run State.empty ops` (§4, §5, §9) holds of managers -/
+theorem mgr_is_crdt_replica (loc d : Nat) (evs : List MEv) :
+    ((Mgr.new loc d).runEv evs).st = run State.empty (Mgr.history loc d evs) ∧
+    Admissible State.empty (Mgr.history loc d evs) :=
+  ⟨mgr_history_run loc d evs, mgr_history_admissible loc d evs⟩
+
+/-- `view_is_join` for the manager: its register for `m` is the greatest (key order) of all the
+    states it accepted from Syncs (after the jump filter), the sender stamps, the add_peer
+    placeholders and the registers its own suspect / refute / mark_healthy / fail wrote. -/
+theorem mgr_view_is_join (loc d : Nat) (evs : List MEv) (m : Nat) :
+    let r := ((Mgr.new loc d).runEv evs).st.regs m
+    (r = none ∨ ∃ x, (⟨m, x⟩ : Update) ∈ seen State.empty (Mgr.history loc d evs) ∧ r = some x) ∧
+    ∀ x, (⟨m, x⟩ : Update) ∈ seen State.empty (Mgr.history loc d evs) → OLe (some x) r := by
+  intro r
+  have h := view_is_join (Mgr.history loc d evs) (mgr_history_admissible loc d evs) m
+  simp only [r, mgr_history_run]
+  exact h
+
+/-- A Sync from anybody but `m` whose states for `m` are all old news — each at most the register
+    the manager holds (key order) — leaves that register exactly as it is, whatever else the
+    message carries, whatever its `sender_time` (any manager state, reachable or not). -/
+theorem mgr_stale_sync_changes_nothing (g : Mgr) (s : Nat) (b : List Update) (t : Nat) (m : Nat)
+    (hm : m ≠ s) (hold : ∀ u ∈ b, u.node = m → OLe (some u.reg) (g.st.regs m)) :
+    (g.handle (.sync s b t)).st.regs m = g.st.regs m :=
+  handleSync_absorbs g s b t m hm hold
+
+/-- The manager's verdicts survive old news: take a manager reached by any events, let any event
+    `e` happen (a `suspect_node` that degrades `m`, a round whose expiry fails `m`, a ping ack that
+    marks it healthy, an `Alive` …), then handle a Sync — not sent by `m` — whose states for `m`
+    were already dominated by the view BEFORE `e` (re-deliveries, late in-between updates): the
+    register `e` left for `m` is untouched. -/
+theorem mgr_verdict_survives_old_news (loc d : Nat) (evs : List MEv) (e : MEv) (s : Nat)
+    (b : List Update) (t : Nat) (m : Nat) (hm : m ≠ s)
+    (hold : ∀ u ∈ b, u.node = m → OLe (some u.reg) (((Mgr.new loc d).runEv evs).st.regs m)) :
+    ((((Mgr.new loc d).runEv evs).stepEv e).handle (.sync s b t)).st.regs m
+      = (((Mgr.new loc d).runEv evs).stepEv e).st.regs m := by
+  apply mgr_stale_sync_changes_nothing _ s b t m hm
+  intro u hu hn
+  exact OLe.trans (hold u hu hn) ((mgr_event_never_moves_backwards loc d evs e).2.1 m)
+
+-- non-vacuity: member 2 arrives Healthy, is suspected, the suspicion expires (Failed, stamp 11);
+-- the original Sync and a late in-between update are handled again: still Failed at stamp 11
+example :
+    let evs : List MEv := [.msg (.sync 3 [⟨2, ⟨.healthy, 4, 1⟩⟩] 5), .suspectNode 2]
+    let g := (Mgr.new 0 100).runEv evs
+    let b : List Update := [⟨2, ⟨.healthy, 4, 1⟩⟩, ⟨2, ⟨.unknown, 7, 1⟩⟩, ⟨3, ⟨.failed, 30, 0⟩⟩]
+    (∀ u ∈ b, u.node = 2 → OLe (some u.reg) (g.st.regs 2)) ∧
+    (g.stepEv (.round [0, 2, 3] 20 [2])).st.regs 2 = some ⟨.failed, 11, 1⟩ ∧
+    ((g.stepEv (.round [0, 2, 3] 20 [2])).handle (.sync 3 b 6)).st.regs 2 = some ⟨.failed, 11, 1⟩ ∧
+    Mgr.history 0 100 evs =
+      [.updateLocal 0 .healthy 0, .syncTime 5, .merge [⟨2, ⟨.healthy, 4, 1⟩⟩], .merge [⟨3, ⟨.healthy, 8, 0⟩⟩],
+       .suspect 2 1] := by
+  refine ⟨?_, by decide, by decide, by decide⟩
+  intro u hu hn
+  simp only [List.mem_cons, List.not_mem_nil, or_false] at hu
+  rcases hu with rfl | rfl | rfl
+  · decide
+  · decide
+  · exact absurd hn (by decide)
 
 end Neumann.Gossip.Props
